@@ -49,6 +49,8 @@ func (a *ake) wipe(wipeKeys bool) {
 	a.theirPublicValue = nil
 
 	wipeBytes(a.r[:])
+	wipeBytes(a.ssid[:])
+	a.hasSSID = false
 
 	a.wipeGX()
 	a.revealKey.unlock()
